@@ -335,6 +335,67 @@ def alias_e2e(binpath, res, seed, n):
             res.inconclusive.append(f"alias positive control rejected: {o['runs'][0].get('e')}")
 
 
+def attribution_block(binpath, res, seed, n):
+    """block-level attribution: a signature entry names the identifier it is attributed to; it is checked against the
+    authorised key with that identifier and no other - not against a key with other material, and not against the same
+    material described with another hash-algorithm list (another identifier)"""
+    import jsongen
+    rng = common.rng_for(seed, PROP, 79)
+    W = scen.World(binpath)
+    pool = ["ed2", "ed3", "edp1", "ec-b", "rsa-2048-a", "ed5", "edp2"]
+    plans, reqs = [], []
+    for i in range(n):
+        k1, k2 = rng.sample(pool, 2)
+        content = scen.mk_link(f"s{i}", {"a": scen.digest(i % 251)}, {"b": scen.digest(7)}, ["c"], {"return-value": 0})
+        plans.append((k1, k2, content, len(reqs)))
+        reqs.append((content, [k2], "new"))
+    wires = scen.sign_all(binpath, reqs, nproc=1)
+    cases = []
+    for k1, k2, content, b in plans:
+        sig2 = wires[b]["signatures"][0]
+        pub2 = W.pub(k2)
+        alt = copy.deepcopy(pub2)
+        alt.pop("keyid", None)
+        if "keyid_hash_algorithms" in alt:
+            del alt["keyid_hash_algorithms"]
+        else:
+            alt["keyid_hash_algorithms"] = ["sha256", "sha512"]
+        d = {"keytype": alt["keytype"], "scheme": alt["scheme"], "keyval": {"public": alt["keyval"]["public"]}}
+        if "keyid_hash_algorithms" in alt:
+            d["keyid_hash_algorithms"] = alt["keyid_hash_algorithms"]
+        alt_id = hashlib.sha256(jsongen.olpc_canon(d).encode()).hexdigest()
+        mode = rng.choice(["control", "control_alt", "labelled_other_key", "labelled_other_key_both_authorised", "labelled_other_description",
+                           "labelled_own_checked_against_other_description"])
+        if mode == "control":
+            sigs, auth, exp = [sig2], [pub2], "accept"
+        elif mode == "control_alt":
+            sigs, auth, exp = [dict(sig2, keyid=alt_id)], [alt], "accept"
+        elif mode == "labelled_other_key":
+            sigs, auth, exp = [dict(sig2, keyid=W.kid(k1))], [pub2], "reject"
+        elif mode == "labelled_other_key_both_authorised":
+            sigs, auth, exp = [dict(sig2, keyid=W.kid(k1))], [W.pub(k1), pub2], "reject"
+        elif mode == "labelled_other_description":
+            sigs, auth, exp = [dict(sig2, keyid=alt_id)], [pub2], "reject"
+        else:
+            sigs, auth, exp = [sig2], [alt], "reject"
+        cases.append({"op": "block", "text": json.dumps({"signatures": sigs, "signed": content}), "threshold": 1, "auth": auth,
+                      "meta": {"kind": "attribution", "mode": mode, "expect": exp, "key": k2}})
+    obs = common.run_batch(binpath, cases)
+    for c, o in zip(cases, obs):
+        m = c["meta"]
+        if any(k in o for k in ("crash", "watchdog", "missing")) or o.get("parse") != "ok" or "auth_err" in o:
+            res.inconclusive.append(f"attribution block case failed in the executor: {str(o)[:200]}")
+            continue
+        ok = o.get("verify") == "ok"
+        res.note([c["text"], m["mode"]], True, cls=[f"attribution:{m['mode']}", "attribution_observed:" + ("accept" if ok else "reject")])
+        if ok and m["expect"] == "reject":
+            res.violate(f"signature-counted-for-another-identifier:{m['mode']}",
+                        f"a signature entry attributed to one identifier was accepted for an authorised key with another identifier ({m['mode']}, key {m['key']})",
+                        c, o, "reject")
+        if not ok and m["expect"] == "accept":
+            res.inconclusive.append(f"attribution positive control rejected ({m['mode']}): {o.get('verify')}")
+
+
 def main(ctx):
     res = common.Result()
     mats = pool_materials()
@@ -349,6 +410,7 @@ def main(ctx):
                 "ids": [o_.get("ok", {}).get("keyid", o_.get("err")) for o_ in obs[0].get("paths", [])]})
     table_checks(ctx.bin, res, ctx.seed, 300 if not ctx.thorough else 6000)
     alias_e2e(ctx.bin, res, ctx.seed, 200 if not ctx.thorough else 4000)
+    attribution_block(ctx.bin, res, ctx.seed, 240 if not ctx.thorough else 4000)
     return common.finish(
         PROP, ctx.tier, ctx.seed, res, t0=ctx.t0,
         rule="pool keys (10 ed25519 incl. 2 made by OpenSSL, 3 P-256, 4 RSA 2048/3072/4096; thorough: +120 fresh OpenSSL keys) x "
@@ -358,6 +420,8 @@ def main(ctx):
         assumptions=["OpenSSL's SubjectPublicKeyInfo encodings are the standards-conformant reference", "olpc_canon + SHA-256 (Python) is the independent key-id computation"],
         required=["keytype:ed25519", "keytype:ecdsa", "keytype:rsa", "path:ed25519:spki", "path:ed25519:pk8", "path:ecdsa:spki",
                   "path:rsa:pem", "path:rsa:json", "spki_reexport_identical:rsa", "spki_reexport_identical:ed25519",
-                  "spki_reexport_identical:ecdsa", "key_table:parsed", "alias_e2e:control", "alias_e2e:sig_labelled_k1", "alias_e2e:both_authorised",
+                  "spki_reexport_identical:ecdsa", "key_table:parsed", "alias_e2e:control", "alias_e2e:sig_labelled_k1", "alias_e2e:both_authorised", "attribution:control", "attribution:control_alt", "attribution:labelled_other_key",
+                  "attribution:labelled_other_key_both_authorised", "attribution:labelled_other_description",
+                  "attribution:labelled_own_checked_against_other_description",
                   "alias_e2e_observed:accept", "alias_e2e_observed:reject"],
         min_evals=300)
